@@ -61,6 +61,7 @@ def run(ctx):
     r = ctx.tlc("FilterSem.tla", "FilterSem_neg_shared.cfg", timeout=600, expect_ok=False, count=False, label="negative-control")
     if not (r.error and "Invariant" in r.error):
         raise vlib.Infra("negative control FilterSem_neg_shared.cfg was not rejected: the invariants do not bite (%s)" % (r.error,))
+    ctx.cov["negative_control"] = "FilterSem_neg_shared.cfg (one shared mask per .unit leaf): " + r.error
 
     # (G) generation + replay
     r = ctx.tlc("FilterSem_gen.tla", "FilterSem_gen_quick.cfg" if q else "FilterSem_gen_thorough.cfg", timeout=3000, label="gen")
